@@ -13,6 +13,7 @@ LEVEL = "exploration"
 TECHNIQUE = ("deterministic simulation (fault-free pipeline): bindings x statements x small tables, option on/off differential, both integrations reading each other's streams, re-serialization")
 LEVEL_NOTE = ("sampled inputs/configurations; rdflib bindings avoid rdflib's own defaults")
 OPTIMIZED_EVERY = 25      # every 25th run is executed in a child interpreter started with python -O
+PBPY_EVERY = 50           # every 50th run (offset 6) is executed with protobuf's pure-Python backend
 COMPILED_EVERY = 25       # every 25th run (offset 12) is executed in a child that imports a mypyc build of the tree
 RUNS = {"quick": 24000, "thorough": 500000}
 RULE = ("seeded runs: bindings (empty prefix, IRIs with/without '/' '#', non-ASCII) x statement sequence x both "
